@@ -223,6 +223,10 @@ func (handler *Handler) loadByteArray(source []byte) (net1 *dhcpSubnet, net2 *dh
 				fmt.Printf("dhcp4: load config invalid clientID %v \n", v)
 				continue
 			}
+			if len(v.Addr.MAC) != 6 { // damaged file: a binding needs a hardware address
+				fmt.Printf("dhcp4: load config invalid mac %v \n", v)
+				continue
+			}
 			if !v.DHCPExpiry.IsZero() && v.DHCPExpiry.Before(time.Now()) { // the lease ran out while it was on disk
 				continue
 			}
